@@ -138,13 +138,14 @@ class TypedGen:
 		self.lines: list[str] = []
 		self.uid = 0
 		self.observing = False
+		self.enum_n = 0
 		# switches for constructs behind open findings / not yet supported (see callers)
 		self.o = {
 			'not_cmp': True, 'cmp_chain': True, 'bit_vs_cmp': True, 'dict_get': True, 'len_arith': True, 'double_neg': True,
 			'enumerate': True, 'closures': True, 'lambdas': True, 'try': True, 'classes': True, 'enums': True, 'floats': True,
 			'str_slice': True, 'list_slice': True, 'comps': True, 'tuples': True, 'dicts': True, 'props': True, 'classmethods': True, 'inherit': True,
 			'defaults': True, 'str_methods': True, 'while': True, 'list_methods': True, 'nested_ternary': True,
-			'destructure_literal': True, 'str_lit_concat': True, 'range_bound_mutation': False, 'enum_value': True, 'mixed_chain': True, 'list_fill': True, 'observe': True,
+			'destructure_literal': True, 'str_lit_concat': True, 'range_bound_mutation': False, 'enum_value': True, 'mixed_chain': True, 'list_fill': True, 'observe': True, 'enumerate_index_reuse': False,
 		}
 		if opts:
 			self.o.update(opts)
@@ -694,6 +695,11 @@ class TypedGen:
 			lst = r.choice(lists)
 			if self.o['enumerate'] and r.random() < 0.4:
 				i = self.fresh(['i', 'j', 'pos'], scope)
+				if not self.o['enumerate_index_reuse']:
+					# open finding enumerate-index-redeclared: the index of an enumerate loop is declared in the enclosing C++ scope, a
+					# second loop with the same index name in that scope does not compile - index names are unique per program here
+					self.enum_n += 1
+					i = f'{i}{self.enum_n}'
 				self.f.add('for-enumerate')
 				self.emit(f'{ind}for {i}, {e} in enumerate({lst.name}):')
 				inner[i] = Var(i, INT, 0, 40, mutable=False)
@@ -711,17 +717,19 @@ class TypedGen:
 			acc = r.choice(ints)
 			form = r.choice(['items', 'values', 'keys'])
 			self.f.add('for-dict-' + form)
-			# dict order differs (insertion vs sorted): only commutative aggregation of bounded terms
+			# dict order differs (insertion order vs sorted keys): the aggregation must not depend on it. A saturating sum (clamp after
+			# every step) does as soon as an intermediate sum leaves the range, so the terms are non-negative and summed modulo a prime.
+			self.emit(f'{ind}{acc.name} = absi({acc.name}) % 1000')
 			if form == 'items':
 				self.emit(f'{ind}for dk, dv in {dv.name}.items():')
-				self.emit(f'{ind}\t{acc.name} = clamp({acc.name} + dv + len(dk))')
+				self.emit(f'{ind}\t{acc.name} = ({acc.name} + absi(dv) % 1000 + len(dk)) % 9973')
 			elif form == 'values':
 				self.emit(f'{ind}for dv in {dv.name}.values():')
-				self.emit(f'{ind}\t{acc.name} = clamp({acc.name} + dv)')
+				self.emit(f'{ind}\t{acc.name} = ({acc.name} + absi(dv) % 1000) % 9973')
 			else:
 				self.emit(f'{ind}for dk in {dv.name}.keys():')
-				self.emit(f'{ind}\t{acc.name} = clamp({acc.name} + len(dk))')
-			acc.lo, acc.hi = -LIMIT, LIMIT
+				self.emit(f'{ind}\t{acc.name} = ({acc.name} + len(dk)) % 9973')
+			acc.lo, acc.hi = 0, 9972
 			return
 		elif self.o['while']:
 			k = self.fresh(['k', 'w', 'left'], scope)
@@ -906,8 +914,11 @@ class TypedGen:
 			self.emit(f'{ind}\tobs = clamp(obs * 3 + obs_q)')
 			self.emit(f'{ind}obs = clamp(obs + len({n}))')
 		elif t == ('dict', STR, INT):
+			# order-independent: non-negative terms summed modulo a prime (see the dict loops above), then folded in
+			self.emit(f'{ind}obs_d = 0')
 			self.emit(f'{ind}for obs_k, obs_v in {n}.items():')
-			self.emit(f'{ind}\tobs = clamp(obs + obs_v + len(obs_k))')
+			self.emit(f'{ind}\tobs_d = (obs_d + absi(obs_v) % 1000 + (7 if obs_v < 0 else 0) + len(obs_k)) % 9973')
+			self.emit(f'{ind}obs = clamp(obs * 3 + obs_d)')
 		elif t[0] == 'cls' and t[1] in self.classes:
 			for fn, ft in self.classes[t[1]].all_fields(self.classes):
 				if ft == INT:
